@@ -22,12 +22,12 @@ COMPONENTS = {"real": ["workflows.* engine, BrokerState.to_serialized/from_seria
               "stub": ["llama_index_instrumentation"], "sim": ["loop, clock, snapshot/resume driver"]}
 ASSUMPTIONS = ["the abandoned incarnation is hard-stopped at the snapshot instant; what it still does afterwards is ignored",
                "an invocation interrupted by the snapshot does not count against the retry budget; completed (failed) attempts do"]
-EXPECTED_PROBES = ["roundtrip-with-waiter", "roundtrip-with-requirement-waiter", "roundtrip-with-collected-events", "twin-deliveries", "snapshot-with-inflight", "snapshot-with-queued", "snapshot-with-pending-retry", "inflight-had-attempts", "snapshot-with-delayed-retry-pending"]
+EXPECTED_PROBES = ["earlier-checkpoint-of-same-context", "roundtrip-with-waiter", "roundtrip-with-requirement-waiter", "roundtrip-with-collected-events", "twin-deliveries", "snapshot-with-inflight", "snapshot-with-queued", "snapshot-with-pending-retry", "inflight-had-attempts", "snapshot-with-delayed-retry-pending"]
 LEVEL_TEXT = ("Seeded exploration of snapshot instants x programs, differential against the uninterrupted run on the same tape, "
               "plus a budget count over both incarnations and a serialize/deserialize fixpoint check of the snapshot itself.")
 LEVEL_NOTE = "Trusted: simulator loop; determinism-by-construction of the generated programs (path ids, idempotent writes)."
 
-CFG = {"driver": "finish", "grid": [0, 1, 1, 2, 3], "p_wait": 0, "p_external": 0, "allow_twins": True}
+CFG = {"checkpoints": True, "driver": "finish", "grid": [0, 1, 1, 2, 3], "p_wait": 0, "p_external": 0, "allow_twins": True}
 
 
 def gen(tape, cfg):
